@@ -355,7 +355,9 @@ type obsStats struct {
 }
 
 // observe compares Get of every id and a few queries with the model. where names the vantage point.
-func observe(vs ai.VectorStore[Payload], m *model, scen string, dim int, where string, rnd *rand.Rand, st *obsStats) (fs []finding, inconclusive string) {
+// only == nil: Get every id of the domain and run all queries; otherwise (the cheaper look from inside
+// the writing transaction) Get the listed ids and run the first three queries.
+func observe(vs ai.VectorStore[Payload], m *model, scen string, dim int, where string, rnd *rand.Rand, st *obsStats, only []string) (fs []finding, inconclusive string) {
 	getFailed := map[string]bool{} // a query finding about an id whose Get already disagreed is a consequence
 	add := func(sig string, d map[string]any) {
 		d["where"] = where
@@ -369,6 +371,9 @@ func observe(vs ai.VectorStore[Payload], m *model, scen string, dim int, where s
 		fs = append(fs, finding{Sig: sig, Detail: d})
 	}
 	ids := append(append([]string{}, m.ids...), "zz-never-stored")
+	if only != nil {
+		ids = append(append([]string{}, only...), "zz-never-stored")
+	}
 	for _, id := range ids {
 		var it *ai.Item[Payload]
 		err, pan := guard(func() error {
@@ -405,7 +410,11 @@ func observe(vs ai.VectorStore[Payload], m *model, scen string, dim int, where s
 			add(fmt.Sprintf("C33:%s:get@%s:dead-item-returned", scen, cls), d)
 		}
 	}
-	for _, q := range queries(m, dim, rnd) {
+	qs := queries(m, dim, rnd)
+	if only != nil && len(qs) > 3 {
+		qs = qs[:3]
+	}
+	for _, q := range qs {
 		var hits []ai.Hit[Payload]
 		err, pan := guard(func() error {
 			var e error
@@ -499,6 +508,14 @@ type outcome struct {
 	steps        int
 }
 
+func itemIDs(items []Item) []string {
+	var out []string
+	for _, it := range items {
+		out = append(out, it.ID)
+	}
+	return out
+}
+
 func dedupFindings(fs []finding) []finding {
 	seen := map[string]bool{}
 	var out []finding
@@ -590,7 +607,17 @@ func execute(p Program) (out outcome) {
 			}
 		}
 		if st.InTx && !st.Optimize {
-			fs, inc := observe(vs, m, scen, p.Cfg.Dim, "inside-writing-transaction", qr, &out.stats)
+			touched := []string{}
+			seenT := map[string]bool{}
+			for _, op := range st.Ops {
+				for _, id := range append([]string{op.ID}, itemIDs(op.Items)...) {
+					if id != "" && !seenT[id] {
+						seenT[id] = true
+						touched = append(touched, id)
+					}
+				}
+			}
+			fs, inc := observe(vs, m, scen, p.Cfg.Dim, "inside-writing-transaction", qr, &out.stats, touched)
 			if fail(i, fs) {
 				tx.Rollback(ctx)
 				return
@@ -645,7 +672,7 @@ func execute(p Program) (out outcome) {
 			out.inconclusive = "open-error(" + where + "): " + err.Error()
 			return
 		}
-		fs, inc := observe(rvs, m, scen, p.Cfg.Dim, where, qr, &out.stats)
+		fs, inc := observe(rvs, m, scen, p.Cfg.Dim, where, qr, &out.stats, nil)
 		if mode == sop.ForReading {
 			rtx.Commit(ctx)
 		} else {
@@ -1043,8 +1070,8 @@ func shrink(p Program, sig string, failStep int, budget int) (Program, int) {
 
 const rule = "case = one generated program (scenario class x usage mode x dedup x dim 2-8 x 5-20 ids x content size; " +
 	"5-12 steps, each its own writing transaction of Upsert/UpsertBatch/Delete ops, Optimize in its own or a shared transaction) " +
-	"run against the real store; after every step Get of every id of the domain and 6-7 queries are compared with the model, " +
-	"inside the writing transaction (1/3 of steps) and from a fresh reading/writing transaction. " +
+	"run against the real store; after every step Get of every id of the domain and 6-7 queries are compared with the model " +
+	"from a fresh reading/writing transaction, and in 1/3 of the steps Get of the touched ids and 3 queries also inside the writing transaction before the commit. " +
 	"fingerprint = hash of the program; non-trivial = at least one Optimize ran while the store held live, deleted AND re-upserted ids (nodedup scenario: live and deleted ids), " +
 	"and at least one query returned >= 2 hits."
 
@@ -1067,7 +1094,7 @@ type caseResult struct {
 
 // Run is the check entry point.
 func Run(r *report.Run) int {
-	n := r.Pick(48, 600)
+	n := r.Pick(40, 500)
 	workers := 12
 	rnd := env.Rand(r.Seed, "c33")
 	progs := make([]Program, n)
